@@ -134,23 +134,28 @@ class Judge:
         r.update({k: (v.tolist() if isinstance(v, torch.Tensor) else v) for k, v in kw.items()})
         return r
 
-    def judge(self, call, step, hist, pos, neg, exp_pos, exp_neg, signed=None):
+    def judge(self, call, step, hist, pos, neg, exp_pos, exp_neg, signed=None, neg_negated=None):
+        """neg_negated: what the depressing part would be had its magnitudes been handed over
+        negated (before the batch reduction); default: minus the specified part."""
         form = call["form"]
         P, N = full(pos, self.shape), full(neg, self.shape)
         EP, EN_ = full(exp_pos, self.shape), full(exp_neg, self.shape)
+        NN = -EN_ if neg_negated is None else full(neg_negated, self.shape)
         self.chk.evaluations += 1
         if bool((EP.abs() > ATOL).any() or (EN_.abs() > ATOL).any()):
             self.chk.nontrivial.add((self.kind, self.cfg, self.red, graph.canon(call), hist, step))
         if bool((P < -ATOL).any()):
             self.chk.violation(self.sig("pos-part-sign", form),
                                self.rep(call, step, hist, observed_pos=P, expected_pos=EP))
-        if bool((N < -ATOL).any()):
-            negated = close(-N, EN_)
-            where = "exactly-the-negated-depressing-magnitude" if negated else "other"
-            self.chk.violation(self.sig("neg-part-sign", form, where=where),
+        if not close(N, EN_) and close(N, NN):
+            # the depressing magnitudes were handed over NEGATED (before the batch reduction): under an
+            # additive reduction the part is negative-valued, under amax it collapses towards zero
+            self.chk.violation(self.sig("neg-part-sign", form, where="exactly-the-negated-depressing-magnitude"),
+                               self.rep(call, step, hist, observed_neg=N, expected_neg=EN_, negated_magnitudes=NN))
+            N = EN_.clone()     # examined in full just above; the remaining clauses use the specified part
+        elif bool((N < -ATOL).any()):
+            self.chk.violation(self.sig("neg-part-sign", form, where="other"),
                                self.rep(call, step, hist, observed_neg=N, expected_neg=EN_))
-            if negated:
-                N = -N
         if not close(P, EP):
             self.chk.violation(self.sig("pos-part-value", form, rates=f"{self.cfg[0]},{self.cfg[1]}"),
                                self.rep(call, step, hist, observed_pos=P, expected_pos=EP))
@@ -241,8 +246,10 @@ def check_match_kind(chk, tables, kind, red, hists, cfgs, do_bounds):
     f = REDS[red]
     heb = hebbian(kind)
     clamp = kind in CLAMP_KINDS
+    anti = (-heb[0], -heb[1])
     for hname, hist in hists:
         ref = Run(kind, heb[0], heb[1], red)
+        ref_anti = Run(kind, anti[0], anti[1], red)
         ref_sum = Run(kind, heb[0], heb[1], "sum") if factors == 3 else None
         shape = tuple(ref.param_value().shape)
         runs = {}
@@ -259,19 +266,33 @@ def check_match_kind(chk, tables, kind, red, hists, cfgs, do_bounds):
         chk.traces += len(runs)
         for step, (pre, post) in enumerate(hist):
             ref.step(pre, post)
+            ref_anti.step(pre, post)
             if ref_sum:
                 ref_sum.step(pre, post)
-            # ---- term magnitudes from the reference run(s)
+            # ---- term magnitudes from the reference runs: M[t] under the Hebbian signs, and
+            # MS[(t, side)] = the magnitude of term t when it is routed to `side` (the kernel rules
+            # reduce the clamped values before negating them, so under a non-additive reduction the
+            # same term has a different reduced magnitude on either side)
             if factors == 3:
                 base = {"form": "scalar", "s": 1}
+                base_anti = base
             elif clamp:
                 base = {"form": "elems", "v1": [heb[0]] * EN, "v2": [heb[1]] * EN}
+                base_anti = {"form": "elems", "v1": [anti[0]] * EN, "v2": [anti[1]] * EN}
             else:
                 base = {"form": "none"}
+                base_anti = base
             rp, rn = ref.parts(base)
             got = {"pos": full(rp, shape), "neg": full(rn, shape)}
+            ap, an = ref_anti.parts(base_anti)
+            got_anti = {"pos": full(ap, shape), "neg": full(an, shape)}
             idx = 1 if clamp else 0
             M = {t: got[term_part(tables, kind, heb, base, t, idx)] for t in ("T1", "T2")}
+            MS = {}
+            for t in ("T1", "T2"):
+                MS[(t, term_part(tables, kind, heb, base, t, idx))] = M[t]
+                MS[(t, term_part(tables, kind, anti, base_anti, t, idx))] = \
+                    got_anti[term_part(tables, kind, anti, base_anti, t, idx)]
             T = {}
             if factors == 3:
                 for b in range(B):
@@ -321,17 +342,19 @@ def check_match_kind(chk, tables, kind, red, hists, cfgs, do_bounds):
                     ent = lookup(tables, kind, cfg[0], cfg[1], call)
                     res, rule = ent["res"], ent["rule"]
                     if call["form"] == "tensor":
-                        tok = lambda t, i: T[(t, i)] * (abs(call["sv"][i - 1]) * SIG_TENSOR[i - 1] * SCALE * zr[t])
+                        tokf = lambda side: (lambda t, i: T[(t, i)] * (abs(call["sv"][i - 1]) * SIG_TENSOR[i - 1]
+                                                                      * SCALE * zr[t]))
                     elif call["form"] == "scalar":
-                        tok = lambda t, i: M[t] * (abs(call["s"]) * zr[t])
+                        tokf = lambda side: (lambda t, i: MS[(t, side)] * (abs(call["s"]) * zr[t]))
                     elif clamp:
-                        tok = lambda t, i: M[t] * zr[t] if i == 1 else torch.zeros(shape)
+                        tokf = lambda side: (lambda t, i: MS[(t, side)] * zr[t] if i == 1 else torch.zeros(shape))
                     else:
-                        tok = lambda t, i: M[t] * zr[t]
-                    exp_pos = eval_part(res["pos"], res["comb"], tok, f)
-                    exp_neg = eval_part(res["neg"], res["comb"], tok, f)
-                    linear = res["comb"] != "cat" or red == "sum"
-                    signed = eval_rule(rule, tok) if linear else None
+                        tokf = lambda side: (lambda t, i: MS[(t, side)] * zr[t])
+                    exp_pos = eval_part(res["pos"], res["comb"], tokf("pos"), f)
+                    exp_neg = eval_part(res["neg"], res["comb"], tokf("neg"), f)
+                    # netting is only demanded where the reduction commutes with the split
+                    linear = (red == "sum") or (res["comb"] == "add") or (res["comb"] == "clamp" and red == "mean")
+                    signed = eval_rule(rule, tokf("pos")) if linear else None
                     pos, neg = run.parts(call)
                     P, N = judge.judge(call, step, hname, pos, neg, exp_pos, exp_neg, signed)
                     step_net[graph.canon(call)] = P - N
@@ -398,7 +421,9 @@ def check_probe_kernels(chk, tables, kind, red, rng, steps):
                 for c in CLASSES:
                     if place[c] == side:
                         mask = mask + (cls_ == c).float()
-                term = f((v.abs() * mask).sum(-1), 0)
+                x = (v.abs() * mask).sum(-1)
+                # kernel_stdp.py: pos = reduce(sum clamp_min), neg = -(reduce(sum clamp_max))
+                term = f(x, 0) if side == "pos" else -f(-x, 0)
                 tot = term if tot is None else tot + term
             exp[side] = tot
         signed = (f(V[0].sum(-1), 0) + f(V[1].sum(-1), 0)) if red in ("sum", "mean") else None
@@ -434,11 +459,15 @@ def check_homeostasis(chk, tables, kind, red, hists, do_bounds):
                             mask = mask + (dcls == c).float()
                     red_ = f(k.abs() * mask, 0)            # (NO,)
                     exp[side] = red_ if param == "bias" else red_.unsqueeze(-1)
+                    if side == "neg":
+                        alt = f(-(k.abs() * mask), 0)      # the same magnitudes handed over negated
+                        exp["neg_negated"] = alt if param == "bias" else alt.unsqueeze(-1)
                 sg = f(k, 0) if red in ("sum", "mean") else None
                 signed = None if sg is None else (sg if param == "bias" else sg.unsqueeze(-1))
                 call = {"form": "rates"}
                 pos, neg = run.parts(call)
-                P, N = judge.judge(call, step, hname, pos, neg, exp["pos"], exp["neg"], signed)
+                P, N = judge.judge(call, step, hname, pos, neg, exp["pos"], exp["neg"], signed,
+                                   neg_negated=exp["neg_negated"])
                 # direction: positive plasticity moves the parameter so that the rate approaches the target
                 if r1 == 1 and red in ("sum", "mean"):
                     want = torch.sign(f(k, 0))
@@ -455,14 +484,14 @@ def check_homeostasis(chk, tables, kind, red, hists, do_bounds):
 
 # ------------------------------------------------------------------ canary
 def canary(chk: Check, tables):
-    """The comparison must reject a deviating expectation: the same STDP run judged against
-    the routing table of the opposite sign mode must produce violations."""
+    """The comparison must reject a deviating expectation: an STDP run with two positive
+    rates judged against the routing table of two negative rates must produce violations."""
     probe = Check(PID, chk.tier, chk.seed)
     probe.known = []
     swapped = dict(tables)
-    swapped[("STDP", -1, 1)] = tables[("STDP", 1, -1)]      # anti-Hebbian judged with the Hebbian routing
+    swapped[("STDP", 1, 1)] = tables[("STDP", -1, -1)]      # potentiation-only judged with the depression-only routing
     rng = random.Random(chk.seed)
-    check_match_kind(probe, swapped, "STDP", "sum", histories(rng, 4)[:1], [(-1, 1)], False)
+    check_match_kind(probe, swapped, "STDP", "sum", histories(rng, 4)[:1], [(1, 1)], False)
     if not any(v["signature"]["clause"] in ("pos-part-value", "neg-part-value") for v in probe.violations):
         raise MachineryFailure("canary: a run judged against a deviating routing table was accepted")
     # remove the replay files the probe wrote
@@ -477,6 +506,8 @@ def canary(chk: Check, tables):
 
 
 def run(tier: str, seed: int) -> int:
+    import os
+    os.environ.setdefault("_JAVA_OPTIONS", "-Xmx2g")    # small models: keep the JVMs of this check small
     chk = Check(PID, tier, seed)
     rng = random.Random(seed)
     chk.extra["rule"] = ("MC: every (configuration, call) of the routing model; binding: every real trainer under every "
@@ -496,12 +527,15 @@ def run(tier: str, seed: int) -> int:
     steps = 5 if quick else 8
     for kind in KINDS:
         hists = histories(rng, steps)
+        if not quick:      # two more random histories
+            hists = hists + [(f"random{j}", histories(rng, steps)[0][1]) for j in (2, 3)]
         reds = ["sum"] if quick else ["sum", "mean", "amax"]
         if quick and kind in ("STDP", "MSTDP", "HomeoWeight", "KernelSTDP", "DelayAdjustedSTDPD"):
             reds = ["sum", "mean"]
         for red in reds:
             if kind in HOMEO_KINDS:
-                check_homeostasis(chk, tables, kind, red, hists[:1] if quick else hists[:1] * 2, do_bounds=True)
+                check_homeostasis(chk, tables, kind, red, [h for h in hists if h[0].startswith("random")],
+                                  do_bounds=True)
             else:
                 cfgs = rate_classes(kind)
                 check_match_kind(chk, tables, kind, red, hists, cfgs, do_bounds=(red == "sum"))
